@@ -99,3 +99,96 @@ def compile_native(src, out_bin, incdir, defines=(), extra_srcs=(), extra=()):
     if r.returncode != 0:
         raise RuntimeError('g++ failed for %s:\n%s' % (src, r.stderr[-4000:]))
     return out_bin
+
+
+def compile_ir_cut(src, out_ll, incdir, defines=(), cuts=None, extra=()):
+    """IR with the bodies of the functions matching `cuts` {regex on mangled name: harness stub name} REPLACED by a call to
+    the stub.  The replacement is done on un-optimised IR (clang -O1 -disable-llvm-passes), then opt -O1 is run, so the same
+    cut code is seen by both engines and by the native replay binary (built from this IR)."""
+    from . import llir
+    tmp = out_ll + '.pre.ll'
+    cmd = ['clang++-14'] + [f for f in CLANG_FLAGS] + ['-Xclang', '-disable-llvm-passes'] + includes(incdir) + \
+        ['-D%s' % d for d in defines] + list(extra) + [src, '-o', tmp]
+    r = subprocess.run(cmd, capture_output=True, text=True)
+    if r.returncode != 0:
+        raise RuntimeError('clang failed for %s:\n%s' % (src, r.stderr[-4000:]))
+    text = open(tmp).read()
+    lines = text.split('\n')
+    out = []
+    i = 0
+    done = set()
+    while i < len(lines):
+        ln = lines[i]
+        m = re.match(r'^define [^@]*@("(?:[^"\\]|\\.)*"|[-a-zA-Z$._0-9]+)\(', ln) if ln.startswith('define ') else None
+        if m:
+            name = m.group(1).strip('"')
+            stub = None
+            for pat, st in (cuts or {}).items():
+                if re.fullmatch(pat, name):
+                    stub = st
+            if stub is not None:
+                mod = llir.Module()
+                # reuse the type table of the whole module for parsing the header
+                hdr_mod = _types_only(text)
+                f = llir._parse_func_header(hdr_mod, ln, i + 1, decl=False)
+                j = i
+                while not lines[j].startswith('}'):
+                    j += 1
+                args = ', '.join('%s %%a%d' % (t.s(), k) for k, (t, n) in enumerate(f.params))
+                fty = '%s (%s)' % (f.ret.s(), ', '.join(t.s() for t, n in f.params))
+                stub_decl = _find_sig(text, stub)
+                out.append('define linkonce_odr dso_local %s @"%s"(%s) {' % (f.ret.s(), name, args))
+                call = 'call %s bitcast (%s* @%s to %s*)(%s)' % (f.ret.s(), stub_decl, stub, fty, args)
+                if f.ret.kind == 'void':
+                    out.append('  %s' % call)
+                    out.append('  ret void')
+                else:
+                    out.append('  %%r = %s' % call)
+                    out.append('  ret %s %%r' % f.ret.s())
+                out.append('}')
+                done.add(name)
+                i = j + 1
+                continue
+        out.append(ln)
+        i += 1
+    missing = [p for p in (cuts or {}) if not any(re.fullmatch(p, n) for n in done)]
+    if missing:
+        raise RuntimeError('cut pass: no function matches %s in %s' % (missing, src))
+    cut_ll = out_ll + '.cut.ll'
+    open(cut_ll, 'w').write('\n'.join(out))
+    r = subprocess.run(['opt-14', '-O1', '-S', cut_ll, '-o', out_ll], capture_output=True, text=True)
+    if r.returncode != 0:
+        raise RuntimeError('opt failed for %s:\n%s' % (src, r.stderr[-3000:]))
+    return sorted(done)
+
+
+_types_cache = {}
+
+
+def _types_only(text):
+    from . import llir
+    key = hash(text)
+    if key not in _types_cache:
+        hdr = '\n'.join(l for l in text.split('\n') if l.startswith('%') and ' = type ' in l)
+        _types_cache.clear()
+        _types_cache[key] = llir.parse_module(hdr)
+    return _types_cache[key]
+
+
+def _find_sig(text, stub):
+    """function type string of the stub as declared/defined in the module"""
+    from . import llir
+    m = re.search(r'^(?:define|declare) [^\n]*@%s\([^\n]*$' % re.escape(stub), text, re.M)
+    if not m:
+        raise RuntimeError('cut pass: stub %s not found in module' % stub)
+    f = llir._parse_func_header(_types_only(text), m.group(0), 0, decl=not m.group(0).startswith('define'))
+    return '%s (%s)' % (f.ret.s(), ', '.join(t.s() for t, n in f.params))
+
+
+def compile_native_from_ir(ll, out_bin, incdir):
+    rt = os.path.join(VERIF, 'engine/rt/verif_native.cc')
+    cmd = ['clang++-14', '-std=c++17', '-O1', '-w', '-rdynamic'] + includes(incdir) + [ll, rt, '-o', out_bin, '-ldl', '-Wl,--unresolved-symbols=ignore-all']
+    r = subprocess.run(cmd, capture_output=True, text=True)
+    if r.returncode != 0:
+        raise RuntimeError('clang (native from IR) failed for %s:\n%s' % (ll, r.stderr[-3000:]))
+    return out_bin
